@@ -138,7 +138,7 @@ def info(tier):
         % (LEN[tier][0], LEN[tier][1], len(MODELS)),
         "required_cells": [f"model:{m}" for m in MODELS if m not in OPTIONAL_MODELS] + ["obs:evaluate", "obs:compiled-value", "obs:compiled-gradient", "obs:compiled-jacobian",
                                                             "obs:compiled-hessian", "obs:solve-vs-fresh-parameters", "obs:solve-vs-constants",
-                                                            "after-set", "solve:warm-start-at-previous-solution", "set:small-relative-change", "set:tiny-value", "vector-parameter:integer-typed-initial-data", "set:vector-as-integers"],
+                                                            "after-set", "solve:warm-start-at-previous-solution", "set:small-relative-change", "set:tiny-value", "vector-parameter:integer-typed-initial-data", "set:vector-as-integers", "parameter-data:narrow-dtype"],
         "assumptions": [
             "twin process: same interpreter / NumPy / SciPy; the solvers are deterministic, so same-path comparisons are tight (1e-7 rel on objective)",
             "literal-Constant twin may legitimately use the LP path: compared on objective only (1e-4), status differences non-comparable unless the same-path twin disagrees too",
@@ -375,8 +375,50 @@ def run_history(rec, rng, twin, mname, length):
     rec.sample({"model": mname, "history": hist[:12]}, cap=2)
 
 
+def run_narrow_data(rec, dtype_name, kind):
+    """Parameters created from / updated with data in a narrow NumPy dtype (int8 counts, uint8 pixels, int16, float32 prices): the
+    parameter stands for its *number* - evaluate and compiled callables at integer and float points, before and after set(), equal
+    the arithmetic on Python numbers"""
+    import optyx
+    from optyx.core import compiler as C
+
+    rec.case({"narrow-data": dtype_name, "kind": kind})
+    dt = getattr(np, dtype_name)
+    first = [100, 90, 7] if dtype_name != "float32" else [0.5, 0.25, 3.0]
+    second = [120, 5, 3] if dtype_name != "float32" else [1.5, 0.75, 0.125]
+    x = optyx.VectorVariable("x", 3)
+    if kind == "vector":
+        q = optyx.VectorParameter("q", 3, np.array(first, dtype=dt))
+        qs = [q[0], q[1], q[2]]
+        setter = lambda vals: q.set(np.array(vals, dtype=dt))  # noqa: E731
+    else:
+        qs = [optyx.Parameter(f"q{i}", dt(first[i])) for i in range(3)]
+        setter = lambda vals: [qs[i].set(dt(vals[i])) for i in range(3)]  # noqa: E731
+    e = qs[0] * x[0] + qs[1] * x[1] + qs[2] * x[2] + qs[0] * x[1] * 2 + qs[1]
+    fn = C.compile_expression(e, list(x))
+    for vals, phase in ((first, "initial"), (second, "after-set")):
+        if phase == "after-set":
+            setter(vals)
+        for pt in ([1, 2, 3], [2, 3, 1], [1.5, 2.25, -0.5]):
+            want = vals[0] * pt[0] + vals[1] * pt[1] + vals[2] * pt[2] + vals[0] * pt[1] * 2 + vals[1]
+            obs = {"evaluate": lambda: e.evaluate({f"x[{i}]": pt[i] for i in range(3)}), "compiled(list)": lambda: fn(list(pt)), "compiled(array)": lambda: fn(np.array(pt))}
+            for route, call in obs.items():
+                rec.cmp(1, "parameter-data:narrow-dtype")
+                try:
+                    got = float(np.asarray(call()).reshape(-1)[0])
+                except Exception as ex:
+                    rec.violation("narrow-parameter-data:raises:" + type(ex).__name__, {"dtype": dtype_name, "kind": kind, "route": route, "error": repr(ex)[:200]})
+                    continue
+                if abs(got - want) > 1e-12 * max(1.0, abs(want)):
+                    rec.violation("parameter-arithmetic-in-the-dtype-of-its-data", {"dtype": dtype_name, "kind": kind, "phase": phase, "route": route, "point": pt, "got": got, "want": want})
+                    return
+
+
 def run(ctx, rec):
     rng = ctx.rng
+    for i, (dn, kd) in enumerate([(d_, k_) for d_ in ("int8", "uint8", "int16", "int32", "float32") for k_ in ("vector", "scalar")]):
+        if ctx.mine(i + 2):
+            run_narrow_data(rec, dn, kd)
     twin = Twin().start()
     try:
         n = 0
@@ -397,7 +439,7 @@ def replay(w, rec):
 
 
 # workloads added after the seventh round of seeded changes (DESIGN section 9): part of the rule of this check
-_RULE_ADDENDUM = 'vector parameters created from integer-typed data and updated as ints / floats'
+_RULE_ADDENDUM = 'vector parameters created from integer-typed data and updated as ints / floats; parameters holding narrow-dtype data (int8 ... float32) evaluated at integer and float points before and after set()'
 _info_base = info
 
 
